@@ -157,11 +157,21 @@ def run(repo, chk):
                    "%s: the minor-loss coefficients of the two pipes add up to the original pipe's" % label, loc(sp_fn, ap[0]),
                    "minor loss is K*v^2/2g per pipe: copying K to both halves doubles it, so SPLIT changes the heads downstream although the statement says it "
                    "leaves the hydraulics of the rest of the network unchanged", expected="K_new + K_retained = pipe.minor_loss", found="%s + %s" % (k_new, k_old))
+        # status: the base status is a definition attribute; pipe.status is the result of the last simulation
+        st_ = args.get("initial_status")
+        chk.expect(st_ is not None and unparse(st_) in ("pipe.initial_status", "pipe._initial_status"), "R-C19-2", "%s: the new pipe's base status comes from the original pipe's initial_status" % label,
+                   loc(sp_fn, ap[0]), "pipe.status is the effective status after the last run / reset: a pipe that was closed during a run hands a Closed base status to the new half",
+                   expected="pipe.initial_status", found=unparse(st_) if st_ is not None else "<default>")
+        # for a SPLIT the two halves are in series: a closed new half without the original's controls blocks the line for good
+        chk.expect(False if (st_ is not None and flag_sensitive_status(sp_fn, st_) is False) else True, "R-C19-2c",
+                   "%s: a SPLIT does not put a closed, control-less pipe in series with the original" % label, loc(sp_fn, ap[0]),
+                   "the new half copies the base status and gets no controls: splitting an initially closed pipe that a control opens leaves the new half closed for ever",
+                   expected="Open for flag == 'SPLIT' (the original half keeps status and controls)", found=unparse(st_) if st_ is not None else "<default>")
         cv = args.get("check_valve")
         chk.expect(cv is None or const(cv, 1) is False, "R-C19-2", "%s: the new pipe gets no check valve" % label, loc(sp_fn, ap[0]),
                    "documented: 'Check valves are not added to the new pipe'", expected="False (or omitted)", found=unparse(cv) if cv is not None else "omitted")
         chk.expect(unparse(args["name"]) == "new_pipe_name", "R-C19-2", "%s: the new pipe is created under new_pipe_name" % label, loc(sp_fn, ap[0]))
-    chk.floor("R-C19-2", 8)
+    chk.floor("R-C19-2", 10)
     chk.floor("R-C19-2b", 2)
 
     # elevation
@@ -220,6 +230,30 @@ def run(repo, chk):
                        "without vertices: junction coordinates = start + (end - start) * s", loc(sp_fn, a), found="(%s, %s)" % (xs, ys))
     sl = [n for n in walk(sp_fn) if isinstance(n, ast.Assign) and unparse(n.targets[0]) == "split_length"]
     chk.expect(bool(sl) and unparse(sl[0].value) in ("length * split_at_point", "split_at_point * length"), "R-C19-1", "with vertices: split_length = polyline length * s", loc(sp_fn), found=unparse(sl[0].value) if sl else None)
+    # vertex partition: every vertex of the original pipe goes to exactly one half: the loop that distributes segment start points appends on
+    # every path, and the only skipped segment is the first one BY POSITION (its start is the start node, not a vertex)
+    vloops = [n for n in walk(sp_fn) if isinstance(n, ast.For) and any(last_attr(c) == "append" and unparse(c.func.value) in ("first_vertices", "last_vertices") for c in calls(n))]
+    if len(vloops) != 1:
+        raise ExtractError("vertex distribution loop not found")
+    vl = vloops[0]
+    positional = unparse(vl.iter) in ("segments[1:]", "segments[1:len(segments)]")
+    gv = CFG(sp_fn) if False else None
+    from ..cfg import CFG as _CFG
+    gg = _CFG(sp_fn)
+    head = gg.loop_heads[vl]
+    apps = gg.nodes_where(lambda node, d: any(last_attr(c) == "append" and unparse(c.func.value) in ("first_vertices", "last_vertices") for c in calls(node)) and vl.lineno < node.lineno <= max(x.lineno for x in ast.walk(vl) if hasattr(x, "lineno")))
+    skip_path = None
+    for f0 in gg.succ_on(head, True):
+        skip_path = skip_path or gg.can_reach_avoiding(f0, {head}, apps)
+    if positional:
+        chk.expect(skip_path is None, "R-C19-1", "every vertex after the first segment is handed to one of the two pipes", loc(sp_fn, vl), found=gg.path_text(skip_path) if skip_path else None)
+    else:
+        # iterating all segments: the skipping guard must test the position, not the coordinates
+        guards_ = [n for n in walk(vl) if isinstance(n, ast.If) and any(isinstance(x, ast.Pass) for x in n.body)]
+        by_value = [g_ for g_ in guards_ if "coordinates" in unparse(g_.test) or "start_pos" in unparse(g_.test)]
+        chk.expect(not by_value and skip_path is None, "R-C19-1", "every vertex after the first segment is handed to one of the two pipes", loc(sp_fn, vl),
+                   "the first segment is skipped by comparing coordinates: a genuine vertex lying on the start node (GIS exports repeat the end point) is dropped from both halves",
+                   expected="skip by position (segments[1:])", found=[unparse(g_.test) for g_ in by_value] or (gg.path_text(skip_path) if skip_path else None))
     # the new junction(s) get the computed elevation and coordinates
     aj = [c for c in calls(sp_fn) if last_attr(c) == "add_junction"]
     okj = len(aj) == 1 and {k.arg: unparse(k.value) for k in aj[0].keywords}.get("elevation") == "junction_elevation" and \
@@ -399,6 +433,23 @@ def run(repo, chk):
         f = feeds(attr)
         chk.expect(collectors.get(cls) in f and user in f, "R-C19-5", "self.%s = elements of class %s required by controls + the user's list" % (attr, cls), loc(skel_init),
                    "an element referenced by a control (or named by the user) must never be removed", expected=[collectors.get(cls), user], found=sorted(f))
+    # anything else that makes NodeRegistry refuse the removal of a junction whose links are gone: non-link users of the node registry
+    from .c14 import usage_sites
+    node_users = set()
+    for rel_ in ("wntr/network/elements.py", "wntr/network/model.py", "wntr/network/base.py"):
+        for fn_ in [n for n in ast.walk(repo.tree(rel_)) if isinstance(n, ast.FunctionDef)]:
+            for op, reg, tag, key, c in usage_sites(fn_):
+                if op == "add_usage" and reg == "_node_reg" and tag and tag.startswith("'"):
+                    node_users.add(tag.strip("'"))
+    chk.sample({"rule": "R-C19-5", "non_link_users_of_nodes": sorted(node_users)})
+    fj = feeds("junc_to_exclude")
+    txt_feed = " ".join(unparse(n) for n in walk(skel_init) if isinstance(n, ast.Call) and isinstance(n.func, ast.Attribute) and n.func.attr in ("extend", "append")
+                        and unparse(n.func.value) == "self.junc_to_exclude")
+    for u in sorted(node_users):
+        acc = {"Source": "sources()"}.get(u)
+        chk.expect(acc is not None and acc in txt_feed, "R-C19-5", "junctions used by a %s are excluded from removal" % u, loc(skel_init),
+                   "remove_node(force=True) only skips the control check: the registry still refuses a node with a usage record, after demands and pipes were already moved "
+                   "(skeletonize of Net2 fails half way with RuntimeError)", expected="junc_to_exclude fed from self.wn.%s" % (acc or "?"), found=txt_feed[:200])
     mapinit = [f for f in walk(skel_init) if isinstance(f, ast.For) and unparse(f.iter) in ("self.wn.node_name_list", "self.wn.nodes()")]
     okm = False
     mvar = None
@@ -433,6 +484,21 @@ def conjuncts(e):
     return [e]
 
 
+def flag_sensitive_status(fn, status_arg):
+    """True if the status argument of the new pipe depends on `flag` (e.g. Open for SPLIT); False if it is the same for SPLIT and BREAK."""
+    names = {n.id for n in ast.walk(status_arg) if isinstance(n, ast.Name)}
+    if "flag" in names:
+        return True
+    for a in walk(fn):
+        if isinstance(a, ast.Assign) and isinstance(a.targets[0], ast.Name) and a.targets[0].id in names:
+            g = parent(a)
+            while g is not None and g is not fn:
+                if isinstance(g, ast.If) and "flag" in unparse(g.test):
+                    return True
+                g = parent(g)
+    return False
+
+
 def enclosing_for(n):
     q = parent(n)
     while q is not None and not isinstance(q, ast.For):
@@ -465,6 +531,11 @@ WITNESSES = [
          new="                     original_length * (1 - split_at_point), pipe.diameter,\n                     pipe.roughness, pipe.minor_loss, pipe.status, pipe.check_valve)", rule="R-C19-2"),
     dict(name="lengths-swapped-at-start", file=LINK, old="        pipe.length = original_length * (1 - split_at_point)\n", new="        pipe.length = original_length * split_at_point\n", rule="R-C19-1"),
     dict(name="coordinates-undefined-at-zero", file=LINK, old="        junction_coordinates = pipe.start_node.coordinates\n", new="", rule="R-C19-1"),
+    dict(name="new-pipe-gets-simulation-status", file=LINK, old="                     original_length * (1 - split_at_point), pipe.diameter,\n                     pipe.roughness, pipe.minor_loss, pipe.initial_status, False)",
+         new="                     original_length * (1 - split_at_point), pipe.diameter,\n                     pipe.roughness, pipe.minor_loss, pipe.status, False)", rule="R-C19-2"),
+    dict(name="first-segment-skipped-by-value", file=LINK, old="        for segment in segments[1:]:\n            if segment['subtotal'] < split_length:",
+         new="        for segment in segments:\n            if segment['start_pos'] == pipe.start_node.coordinates:\n                pass\n            elif segment['subtotal'] < split_length:", rule="R-C19-1"),
+    dict(name="source-junctions-not-excluded", file=SKEL, old="        self.junc_to_exclude.extend([source.node_name for name, source in self.wn.sources()])\n", new="", rule="R-C19-5"),
     dict(name="roughness-minor-loss-swapped", file=LINK, old="                     original_length * split_at_point, pipe.diameter,\n                     pipe.roughness, pipe.minor_loss,",
          new="                     original_length * split_at_point, pipe.diameter,\n                     pipe.minor_loss, pipe.roughness,", rule="R-C19-2"),
     dict(name="elevation-from-wrong-end", file=LINK, old="        junction_elevation = e0 + de * split_at_point", new="        junction_elevation = e0 + de * (1 - split_at_point)", rule="R-C19-1"),
